@@ -566,7 +566,9 @@ struct Gen {
         divisor = pick_divisor(m);
         static const uint32_t bnds[] = {49, 50, 51, 63};
         l2 = bnds[r.below(4)];
-        int kb = (int)r.range(1, l2 <= 50 ? 44 : 46);  // |x/d| < 2^kb, well inside both variants' windows
+        // |x/d| < 2^kb: inside the fast variant's window (2^50) for bounds <= 50, up to the wide variant's (2^52) above.
+        // Beyond 2^46 the generated values are exact integers (no fractional part, hence no .5 ties).
+        int kb = l2 <= 50 ? (int)r.range(1, 46) : (r.chance(1, 3) ? (int)r.range(47, 51) : (int)r.range(1, 46));
         c.s[0] = new_raw(T_I64, 2 * m, false, 0);
         c.s[1] = new_raw(T_F64, 2 * m, true, kb, PAT_RANDOM, ilog2d(divisor));
         P.slots[c.s[1]].pattern = 100 + (r.chance(1, 2) ? PAT_RANDOM : PAT_MIXED);  // near-integer multiples of the divisor
@@ -691,6 +693,43 @@ struct Gen {
     return push_call(c);
   }
 
+  // exported kernel twins the caller selects by symbol: the same operands go to the _ref and the _avx2 product
+  bool emit_q120_pair() {
+    static const int refs[] = {OP_Q120_BAA_REF, OP_Q120_BBB_REF, OP_Q120_BBC_REF, OP_Q120X2_1COL_REF, OP_Q120X2_2COLS_REF};
+    Call c;
+    c.op = refs[r.below(5)];
+    uint64_t ell = r.chance(6, 100) ? 0 : (r.chance(4, 100) ? (uint64_t)r.range(1000, 10000) : (uint64_t)r.range(1, 40));
+    c.p[0] = ell;
+    int pat = r.chance(70, 100) ? PAT_RANDOM : PAT_ALLMAX;
+    c.tab = get_table(op_info[c.op].tabkind, 0);
+    uint64_t on = 4;
+    if (c.op == OP_Q120_BAA_REF) {
+      c.s[1] = new_raw(T_U64, 4 * ell, true, 32, pat);
+      c.s[2] = new_raw(T_U64, 4 * ell, true, 32, pat);
+    } else if (c.op == OP_Q120_BBB_REF) {
+      c.s[1] = new_raw(T_U64, 4 * ell, true, 64, pat);
+      c.s[2] = new_raw(T_U64, 4 * ell, true, 64, pat);
+    } else if (c.op == OP_Q120_BBC_REF) {
+      c.s[1] = new_raw(T_U64, 4 * ell, true, 64, pat);
+      c.s[2] = new_raw(T_U32, 8 * ell, true, 32, pat);
+    } else if (c.op == OP_Q120X2_1COL_REF) {
+      on = 8;
+      c.s[1] = new_raw(T_U64, 8 * ell, true, 64, pat);
+      c.s[2] = new_raw(T_U32, 16 * ell, true, 32, pat);
+    } else {
+      on = 16;
+      c.s[1] = new_raw(T_U64, 8 * ell, true, 64, pat);
+      c.s[2] = new_raw(T_U32, 32 * ell, true, 32, pat);
+    }
+    c.s[0] = new_raw(T_U64, on, false, 0);
+    if (!push_call(c)) return false;
+    Call d = c;
+    d.op = c.op + 1;  // the _avx2 twin follows its _ref in the op table
+    d.s[0] = new_raw(T_U64, on, false, 0);
+    d.repeat_of = (int)P.calls.size() - 1;
+    return push_call(d);
+  }
+
   bool emit_life_op() {
     Call c;
     switch (r.below(6)) {
@@ -800,8 +839,10 @@ struct Gen {
     uint64_t x = r.below(100);
     int wm = cfg.module_ops ? 55 : 0, wt = cfg.table_ops ? 20 : 0, ws = cfg.simple_ops ? 20 : 0, wq = cfg.q120 ? 8 : 0, wl = cfg.life_ops ? 8 : 0,
         wr = cfg.repeats ? 30 : 0;
-    int tot = wm + wt + ws + wq + wl + wr;
+    int wk = cfg.kernel_pairs ? 8 : 0;
+    int tot = wm + wt + ws + wq + wl + wr + wk;
     int v = (int)(x * (uint64_t)tot / 100);
+    if (v >= tot - wk) return emit_q120_pair();
     if (v < wm) return emit_module_op((int)r.below(P.modules.size()));
     v -= wm;
     if (v < wt) return emit_table_op(false);
